@@ -162,6 +162,9 @@ Fixpoint events_of (fuel : nat) (script : str) : list event :=
     end
   end.
 
-Definition show_cli (script : str) : str :=
-  let o := run (events_of (S (length script)) script) in
+(** [read_error]: the input ends with a read error after the script's bytes (an operand that
+    opens but cannot be read); the scanner still delivers the bytes read so far *)
+Definition show_cli_gen (read_error : bool) (script : str) : str :=
+  let o := run (events_of (S (length script)) script ++ (if read_error then [ReadError] else [])) in
   (if o_fail o then [49] else [48]) ++ [32] ++ hex_of (o_stdout o).
+Definition show_cli (script : str) : str := show_cli_gen false script.
